@@ -1,0 +1,41 @@
+//go:build verif
+
+package schema
+
+import "sync/atomic"
+
+// Verification hook, compiled only with the build tag verif: schedule
+// perturbation / reach counting at the suspension points of the stream
+// primitives. No behaviour changes.
+
+// Yield points reported to the hook installed with SetVerifYield.
+const (
+	VerifSendEnter     = iota // stream.send: before the closed pre-check
+	VerifSendSelect           // stream.send: between pre-check and the blocking select
+	VerifRecvEnter            // stream.recv: before the channel receive
+	VerifCloseSend            // stream.closeSend: before close(items)
+	VerifCloseRecv            // stream.closeRecv: before close(closed)
+	VerifPeekEnter            // parentStreamReader.peek: before once.Do
+	VerifPeekAfterOnce        // parentStreamReader.peek: after once.Do
+	VerifChildClose           // parentStreamReader.close: before the closed-children counter is bumped
+	VerifParentClose          // parentStreamReader.close: last child closed, before closing the source
+	VerifMultiRecv            // multiStreamReader.recv: per loop iteration
+	VerifForwardLoop          // toStream forwarder goroutine: per loop iteration
+	VerifPoints
+)
+
+var verifYieldHook atomic.Value // func(int)
+
+// SetVerifYield installs (or, with nil, removes) the yield hook.
+func SetVerifYield(fn func(point int)) {
+	if fn == nil {
+		fn = func(int) {}
+	}
+	verifYieldHook.Store(fn)
+}
+
+func verifYield(p int) {
+	if fn, _ := verifYieldHook.Load().(func(int)); fn != nil {
+		fn(p)
+	}
+}
